@@ -33,8 +33,8 @@ BUDGET = {
     "C09": (12000, 50, 600000, 660),
     "C12": (8000, 50, 400000, 660),
     "C13": (3000, 55, 150000, 660),
-    "C16": (600, 55, 30000, 660),
-    "C17": (300, 55, 6000, 660),
+    "C16": (1600, 55, 60000, 660),
+    "C17": (1000, 55, 40000, 660),
     "C18": (10000, 50, 500000, 660),
 }
 
